@@ -164,7 +164,11 @@ def replay_observer(c):
     env = PlayingPhaseWithHands(contract, Hands(*[{card_of(i) for i in deal[p]} for p in range(1, 5)]))
     seat = Player(c['observer'])
     dummy = contract.declarer.partner
-    obs = ObservedPlayingPhase(contract, seat, {card_of(i) for i in deal[seat.value]})
+    own = {card_of(i) for i in deal[seat.value]}
+    obs = ObservedPlayingPhase(contract, seat, own)
+    mode = c.get('mode')
+    if mode in ('is_dummy_alias', 'is_dummy_copy') and seat is dummy:
+        obs.set_dummy_hand(own if mode == 'is_dummy_alias' else set(own))   # how the hands are handed in is part of the input
     ref = Ref(contract, {p: {card_of(i) for i in deal[p]} for p in range(1, 5)})
     bad = []
 
@@ -191,15 +195,15 @@ def replay_observer(c):
             o_ok = True
         except Exception:
             o_ok = False
-        if f_ok and not o_ok:
-            bad.append(('C11', f'{where}: accepted by the full game, rejected by the observer'))
-            break
         if o_ok != should:
             bad.append(('C05', f'{where}: observer {"accepted" if o_ok else "refused"} but its own rules say {"accept" if should else "refuse"}'))
         if not o_ok:
             after = (view(obs), set(obs.hand), None if obs.dummy_hand is None else set(obs.dummy_hand))
             if after != before:
                 bad.append(('C05', f'{where}: a play refused by the observer changed it'))
+            if f_ok:
+                bad.append(('C11', f'{where}: accepted by the full game, rejected by the observer'))
+                break
             continue
         if not f_ok:
             break
@@ -211,7 +215,7 @@ def replay_observer(c):
             bad.append(('C11', f'after {where}: observer and full game disagree on {diff}'))
         if set(obs.hand) != set(env.hands[seat]):
             bad.append(('C05C11', f'after {where}: observer\'s own hand differs from that seat\'s hand'))
-        if seat is not dummy and set(obs.dummy_hand) != set(env.hands[dummy]):
+        if (seat is not dummy or mode == 'is_dummy_alias') and set(obs.dummy_hand) != set(env.hands[dummy]):
             bad.append(('C05C11', f'after {where}: observer\'s view of dummy differs from dummy\'s hand'))
         if bad:
             break
